@@ -11,6 +11,9 @@ use crate::lab::W;
 
 pub struct Reports {
     pub basic: Result<String, String>,
+    /// `writer::Basic` with `Coloring::Always` (terminal mode: step `Started` lines are printed
+    /// and later erased with cursor movements); raw bytes, to be rendered by [`render_terminal`].
+    pub basic_tty: Result<String, String>,
     pub libtest: Result<String, String>,
     pub json: Result<String, String>,
     pub junit: Result<String, String>,
@@ -47,6 +50,15 @@ pub fn produce(stream: &[Ev], o: &Opts) -> Reports {
         }
         s(&sink)
     });
+    let basic_tty = guarded(|| {
+        let sink = Sink::default();
+        let mut w = writer::Normalize::<W, _>::new(writer::Basic::raw(sink.clone(), Coloring::Always, verb));
+        let cli = writer::basic::Cli { verbose: o.verbosity, color: Coloring::Always };
+        for e in stream {
+            block_on(w.handle_event(e.clone(), &cli));
+        }
+        s(&sink)
+    });
     let libtest = guarded(|| {
         let sink = Sink::default();
         let mut w = writer::Normalize::<W, _>::new(writer::Libtest::<W, _>::raw(sink.clone()));
@@ -73,7 +85,7 @@ pub fn produce(stream: &[Ev], o: &Opts) -> Reports {
         }
         s(&sink)
     });
-    Reports { basic, libtest, json, junit }
+    Reports { basic, basic_tty, libtest, json, junit }
 }
 
 // ------------------------------------------------------------------------------------------
@@ -631,6 +643,84 @@ pub fn expected_basic(facts: &[Fact], with_headers: bool) -> Vec<String> {
     out
 }
 
+/// What a terminal shows after receiving `raw`: interprets the control sequences `writer::Basic`
+/// emits in terminal mode (CR, LF, `ESC[nA`, `ESC[nB`, `ESC[2K`) and drops colour (SGR) sequences.
+/// No line wrapping: valid when the writer saw no terminal width (stdout not a terminal).
+pub fn render_terminal(raw: &str) -> String {
+    let mut lines: Vec<Vec<char>> = vec![vec![]];
+    let (mut row, mut col) = (0usize, 0usize);
+    let cs: Vec<char> = raw.chars().collect();
+    let mut i = 0;
+    while i < cs.len() {
+        let c = cs[i];
+        i += 1;
+        match c {
+            '\n' => {
+                row += 1;
+                col = 0;
+                while lines.len() <= row {
+                    lines.push(vec![]);
+                }
+            }
+            '\r' => col = 0,
+            '\x1b' if cs.get(i) == Some(&'[') => {
+                let mut j = i + 1;
+                while j < cs.len() && !cs[j].is_ascii_alphabetic() {
+                    j += 1;
+                }
+                let arg: String = cs[i + 1..j.min(cs.len())].iter().collect();
+                let n = arg.parse::<usize>().unwrap_or(1);
+                match cs.get(j) {
+                    Some('A') => row = row.saturating_sub(n),
+                    Some('B') => {
+                        row += n;
+                        while lines.len() <= row {
+                            lines.push(vec![]);
+                        }
+                    }
+                    Some('K') => {
+                        if arg == "2" {
+                            lines[row].clear();
+                        } else {
+                            lines[row].truncate(col);
+                        }
+                    }
+                    _ => {} // colours and anything else: no effect on the text
+                }
+                i = j + 1;
+            }
+            c => {
+                let l = &mut lines[row];
+                while l.len() < col {
+                    l.push(' ');
+                }
+                if col < l.len() {
+                    l[col] = c;
+                } else {
+                    l.push(c);
+                }
+                col += 1;
+            }
+        }
+    }
+    let mut out = String::new();
+    for l in &lines {
+        out.extend(l.iter());
+        out.push('\n');
+    }
+    out
+}
+
+pub fn check_basic_tty(raw: &str, facts: &[Fact]) -> Vec<Violation> {
+    let screen = render_terminal(raw);
+    let got = parse_basic(&screen, true);
+    let exp = expected_basic(facts, true);
+    if std::env::var_os("VERIF_DUMP").is_some() && got != exp {
+        eprintln!("--- raw\n{}\n--- rendered\n{screen}\n---", raw.escape_debug().to_string().replace("\\n", "\\n\n"));
+    }
+    multiset_diff("terminal (colours on, rendered)", &exp, &got).map(|d| vec![v("terminal-tty/facts", d)]).unwrap_or_default()
+}
+
 pub fn check_basic(text: &str, facts: &[Fact]) -> Vec<Violation> {
     let got = parse_basic(text, true);
     let exp = expected_basic(facts, true);
@@ -758,6 +848,14 @@ pub fn check_all(stream: &[Ev], o: &Opts) -> Vec<Violation> {
     match &r.basic {
         Ok(t) => viol.extend(check_basic(t, &facts)),
         Err(p) => viol.push(v("terminal/panic", p.clone())),
+    }
+    // terminal mode counts lines by the terminal width if stdout is a terminal: only rendered
+    // when it is not (always the case inside the worker processes)
+    if !std::io::IsTerminal::is_terminal(&std::io::stdout()) {
+        match &r.basic_tty {
+            Ok(t) => viol.extend(check_basic_tty(t, &facts)),
+            Err(p) => viol.push(v("terminal-tty/panic", p.clone())),
+        }
     }
     match &r.libtest {
         Ok(t) => viol.extend(check_libtest(t, &facts, pf)),
